@@ -147,7 +147,23 @@ func genPipePlan(seed int64, o PipeGenOpts) *PipePlan {
 	}
 	if o.Filter {
 		p.Cfg.FilterViaFile = r.Intn(2) == 0
-		switch r.Intn(9) {
+		switch r.Intn(12) {
+		case 9, 10, 11:
+			// any list: small type numbers, numbers that no sample carries (also
+			// beyond the 12 bits of a format number), duplicates
+			n := 1 + r.Intn(4)
+			for i := 0; i < n; i++ {
+				switch r.Intn(4) {
+				case 0:
+					p.Cfg.SFlowFilter = append(p.Cfg.SFlowFilter, uint32(1+r.Intn(7)))
+				case 1:
+					p.Cfg.SFlowFilter = append(p.Cfg.SFlowFilter, uint32(64+r.Intn(200)))
+				case 2:
+					p.Cfg.SFlowFilter = append(p.Cfg.SFlowFilter, []uint32{65, 66, 129, 130, 4097, 4098, 1<<32 - 63, 1<<32 - 62, 1 << 31, 256, 257, 258}[r.Intn(12)])
+				default:
+					p.Cfg.SFlowFilter = append(p.Cfg.SFlowFilter, r.Uint32())
+				}
+			}
 		case 5:
 			p.Cfg.SFlowFilter = []uint32{2, 1}
 		case 6:
@@ -381,6 +397,28 @@ func genPipePlan(seed int64, o PipeGenOpts) *PipePlan {
 								} else {
 									fe.tpls[ti] = nt
 								}
+							}
+						}
+						if o.Reannounce && r.Intn(12) == 0 && used < 900 && len(m.Sets) > 0 {
+							// a template whose field lengths add up to more than any set can
+							// hold (each length fits its 16 bits, the sum does not): no record
+							// of it can ever be present, a data set under its id is padding
+							// only, and the other sets of the message decode as usual
+							ga := 30000 + r.Intn(30000)
+							gb := 65536 - ga + r.Intn(9) // the sum passes 2^16 by 0..8
+							if r.Intn(3) == 0 {
+								gb = 35536 + r.Intn(29000)
+							}
+							giant := model.Template{ID: uint16(60000 + r.Intn(1000)), Fields: []model.FieldSpec{
+								{ID: 210, Len: uint16(ga)}, {ID: 210, Len: uint16(gb)}}}
+							body := make([]byte, 4*r.Intn(12))
+							r.Read(body)
+							saved := m.Sets
+							extra := append(fe.g.TemplateSets([]model.Template{giant}), model.Set{Kind: model.SetRaw, RawID: giant.ID, RawBody: body})
+							if r.Intn(2) == 0 {
+								m.Sets = append(append([]model.Set(nil), extra...), saved...)
+							} else {
+								m.Sets = append(append([]model.Set(nil), saved...), extra...)
 							}
 						}
 						if len(m.Sets) == 0 {
